@@ -63,7 +63,9 @@ class RequestChannelCommon(StreamHandler, Publisher, Subscription, Disposable, m
             self.subscriber.subscription.cancel()
             self.mark_completed_and_finish(sent=True)
         elif isinstance(frame, RequestNFrame):
-            if self.subscriber.subscription is not None:
+            if self._sent_complete:
+                pass  # our sending side already ended (complete or error): credit for it must not reach the publisher again
+            elif self.subscriber.subscription is not None:
                 self.subscriber.subscription.request(frame.request_n)
             else:
                 logger().warning('%s: Received request_n but no publisher provided', self.__class__.__name__)
